@@ -208,7 +208,7 @@ fn render_faults(b: &mut B) {
     b.r("overflow/sub", "{{ 0 - 10 ** 38 ⟦-⟧ 10 ** 38 }}");
     b.r("overflow/pow-exponent", "{{ 2 ⟦**⟧ 4294967296 }}");
     // `huge` (u128::MAX) only exists in the context, not in the defaults of the host component
-    let ctx_only = RENDERED & !m(&[COMP_BODY, COMP_FROM_INCLUDE, DEEP, COMP_IN_CAPTURE, COMP_REENTRY]);
+    let ctx_only = RENDERED & !m(&[COMP_BODY, COMP_FROM_INCLUDE, DEEP, COMP_IN_CAPTURE, COMP_REENTRY, OWN_COMP]);
     b.r_at("overflow/operand-out-of-i128-mul", "{{ huge ⟦*⟧ 2 }}", ctx_only);
     b.r_at("overflow/operand-out-of-i128-plus", "{{ 1 ⟦+⟧ huge }}", ctx_only);
     b.r_at("overflow/negate", "{{ -⟦huge⟧ }}", ctx_only);
